@@ -419,8 +419,8 @@ def has_unsat_leaf(doc):
 
     def stuck_array(a, top=False):
         # every prefix entry is generated, and one element for 'items' when minItems is absent (or >= 1)
-        if types(a) != ["array"]:
-            return False
+        if (types(a) != ["array"]) if not top else not (types(a) is None or "array" in types(a)):
+            return False                  # (inside: the whole alternative must be stuck; at the top: its array part)
         if any(unsat(x) for x in (a.get("prefixItems") or []) if isinstance(a.get("prefixItems"), list)):
             return True
         if top and "minItems" in a:
@@ -432,7 +432,12 @@ def has_unsat_leaf(doc):
             return True
         if not isinstance(s, dict) or not isinstance(s.get("anyOf"), list):
             return False
-        return all(isinstance(a, dict) and "$ref" not in a and (types(a) == [] or a.get("enum") == [] or stuck_array(a)) for a in s["anyOf"])
+        return all(isinstance(a, dict) and "$ref" not in a and (types(a) == [] or a.get("enum") == [] or stuck_array(a) or stuck_object(a)) for a in s["anyOf"])
+
+    def stuck_object(a):
+        # an object alternative one of whose required properties cannot be satisfied
+        props = a.get("properties") if isinstance(a.get("properties"), dict) else {}
+        return types(a) == ["object"] and any(r in props and unsat(props[r]) for r in (a.get("required") or []))
     return any(stuck_array(a, top=True) for a in conjuncts(nf))
 
 
@@ -580,6 +585,10 @@ def oracle_c12(doc):
                 nf = normalize(copy.deepcopy(doc))
                 if any(alt.get("type") == [] for alt in conjuncts(nf)):
                     why = ":empty-type-intersection"
+                elif has_unsat_leaf(doc):
+                    # an array alternative whose prefix entry / items cannot be satisfied by the generator (false, empty enum):
+                    # every sample through it is invalid already, whatever else is relaxed
+                    why = ":unsatisfiable-items-generated-non-empty"
                 elif kind == "type":
                     # The counter-examples for forbidden types are the fixed default samples, placed where the 'type' keyword
                     # stands.  Judged on the sub-schema that carries the keyword (with the document's $defs): if every default
